@@ -202,10 +202,17 @@ func runLoopCase(ci interface{}, rec *pbt.Rec) *pbt.Failure {
 	if err != nil {
 		return pbt.Failf("harness", "erc20: %v", err)
 	}
+	token2Addr, err := scratch.DeployERC20(holder, 18)
+	if err != nil {
+		return pbt.Failf("harness", "erc20: %v", err)
+	}
 	cfg.Tokens = []sim.TokenCfg{
 		{Id: 1, Denom: "hub", Chain: "ethereum", ExtId: tokenAddr.Hex(), Decimals: 18, Commission: "0.01"},
 		{Id: 2, Denom: "hub", Chain: "minter", ExtId: "1", Decimals: 18, Commission: "0.01"},
+		{Id: 3, Denom: "usdt", Chain: "ethereum", ExtId: token2Addr.Hex(), Decimals: 18, Commission: "0"},
+		{Id: 4, Denom: "usdt", Chain: "minter", ExtId: "10", Decimals: 18, Commission: "0"},
 	}
+	cfg.Prices = append(cfg.Prices, sim.PriceCfg{Name: "usdt", Value: "1"})
 	h := sim.NewHub(cfg)
 	height, now := int64(1), int64(1600000005)
 	if err := h.Begin(height, now); err != nil {
@@ -236,13 +243,32 @@ func runLoopCase(ci interface{}, rec *pbt.Rec) *pbt.Failure {
 	if err != nil || w.token != tokenAddr {
 		return pbt.Failf("harness", "token address %s != predicted %s (%v)", w.token.Hex(), tokenAddr.Hex(), err)
 	}
+	token2, err := w.ch.DeployERC20(holder, 18)
+	if err != nil || token2 != token2Addr {
+		return pbt.Failf("harness", "token2 address %s != predicted %s (%v)", token2.Hex(), token2Addr.Hex(), err)
+	}
 	// users hold vouchers that are backed by tokens already in the contract's custody
 	backing := new(big.Int).Lsh(big.NewInt(1), 80)
-	if _, err := w.ch.ERCCall(w.token, holder, "transfer", w.ch.Hub, new(big.Int).Mul(backing, big.NewInt(3))); err != nil {
-		return pbt.Failf("harness", "fund custody: %v", err)
+	for _, tk := range []common.Address{w.token, token2} {
+		if _, err := w.ch.ERCCall(tk, holder, "transfer", w.ch.Hub, new(big.Int).Mul(backing, big.NewInt(3))); err != nil {
+			return pbt.Failf("harness", "fund custody: %v", err)
+		}
 	}
 	for u := 0; u < 3; u++ {
 		h.Fund(sim.UserAddr(u), "hub", backing)
+		h.Fund(sim.UserAddr(u), "usdt", backing)
+	}
+	type knownBatch struct {
+		b        *mtypes.BatchTx
+		executed bool
+	}
+	known := map[uint64]*knownBatch{}
+	learn := func() {
+		for _, b := range h.Batches("ethereum") {
+			if known[b.BatchNonce] == nil {
+				known[b.BatchNonce] = &knownBatch{b: b}
+			}
+		}
 	}
 	w.collect()
 
@@ -378,9 +404,12 @@ func runLoopCase(ci interface{}, rec *pbt.Rec) *pbt.Failure {
 				return nil
 			}
 		case "send":
-			h.Deliver(mtypes.NewMsgSendToExternal("ethereum", sim.UserAddr(op.User%3), sim.ExtUser(op.User).Hex(), sdk.NewInt64Coin("hub", op.Amt), sdk.NewInt64Coin("hub", op.Fee)))
+			dn := []string{"hub", "usdt"}[op.Amt%2]
+			h.Deliver(mtypes.NewMsgSendToExternal("ethereum", sim.UserAddr(op.User%3), sim.ExtUser(op.User).Hex(), sdk.NewInt64Coin(dn, op.Amt), sdk.NewInt64Coin(dn, op.Fee)))
 		case "reqbatch":
 			h.Deliver(&mtypes.MsgRequestBatchTx{Denom: "hub", Signer: sim.UserAddr(0).String(), ChainId: "ethereum"})
+			h.Deliver(&mtypes.MsgRequestBatchTx{Denom: "usdt", Signer: sim.UserAddr(0).String(), ChainId: "ethereum"})
+			learn()
 		case "power":
 			v, p := op.Val%nv, op.Pow
 			h.QueueStaking(func(s *sim.SimStaking) { s.Vals[v].Power = p })
@@ -407,8 +436,8 @@ func runLoopCase(ci interface{}, rec *pbt.Rec) *pbt.Failure {
 			copy(dst[12:], sim.UserAddr(op.User%3))
 			var dchain [32]byte
 			copy(dchain[:], "hub")
-			w.ch.ERCCall(w.token, holder, "approve", w.ch.Hub, big.NewInt(op.Amt))
-			if _, err := w.ch.HubCall(holder, "transferToChain", w.token, dchain, dst, big.NewInt(op.Amt), big.NewInt(0)); err != nil {
+			w.ch.ERCCall(tokenAddr, holder, "approve", w.ch.Hub, big.NewInt(op.Amt))
+			if _, err := w.ch.HubCall(holder, "transferToChain", tokenAddr, dchain, dst, big.NewInt(op.Amt), big.NewInt(0)); err != nil {
 				return pbt.Failf("harness", "transferToChain: %v", err)
 			}
 			w.collect()
@@ -495,11 +524,31 @@ func runLoopCase(ci interface{}, rec *pbt.Rec) *pbt.Failure {
 				refused++
 			}
 		case "batch":
+			learn()
 			bs := h.Batches("ethereum")
+			stale := false
+			if op.Mode == 0 && op.Pick >= 4 {
+				// a relayer that still holds a batch the hub no longer lists (and that was not executed) tries it
+				live := map[uint64]bool{}
+				for _, b := range bs {
+					live[b.BatchNonce] = true
+				}
+				var old []*mtypes.BatchTx
+				for n, kb := range known {
+					if !live[n] && !kb.executed {
+						old = append(old, kb.b)
+					}
+				}
+				sort.Slice(old, func(i, j int) bool { return old[i].BatchNonce < old[j].BatchNonce })
+				if len(old) > 0 {
+					bs, stale = old, true
+				}
+			}
 			if len(bs) == 0 {
 				break
 			}
 			b := bs[op.Pick%len(bs)]
+			w.token = common.HexToAddress(b.ExternalTokenId)
 			r, err := h.K.BatchTxConfirmations(sdk.WrapSDKContext(h.Ctx()), &mtypes.BatchTxConfirmationsRequest{BatchNonce: b.BatchNonce, ExternalTokenId: b.ExternalTokenId, ChainId: "ethereum"})
 			if err != nil {
 				return pbt.Failf("harness", "%v", err)
@@ -532,6 +581,13 @@ func runLoopCase(ci interface{}, rec *pbt.Rec) *pbt.Failure {
 			inOrder := b.BatchNonce > w.ch.LastBatchNonce(w.token)
 			timely := w.ch.Block < b.Timeout
 			err = w.ch.SubmitBatch(w.relayer, w.cur, use, eb)
+			if stale {
+				if err == nil {
+					return pbt.Failf("contract-executes-withdrawn-batch", "the hub withdrew batch %d (token %s) without observing its execution, yet the contract still executes it with the stored confirmations", b.BatchNonce, b.ExternalTokenId)
+				}
+				refused++
+				break
+			}
 			switch {
 			case err == nil && !(enough && inOrder && timely):
 				return pbt.Failf("contract-accepts-unconfirmed-batch", "submitBatch %d accepted (power %s, in order %v, timely %v)", b.BatchNonce, pow, inOrder, timely)
@@ -539,6 +595,9 @@ func runLoopCase(ci interface{}, rec *pbt.Rec) *pbt.Failure {
 				return pbt.Failf("contract-refuses-confirmed-batch", "batch %d (timeout %d, contract block %d) is confirmed by %s of the contract's current set (> threshold) but submitBatch reverts: %v", b.BatchNonce, b.Timeout, w.ch.Block, pow, err)
 			case err == nil:
 				executed++
+				if known[b.BatchNonce] != nil {
+					known[b.BatchNonce].executed = true
+				}
 				if setChanges > 0 {
 					batchesUnderNewSet++
 				}
@@ -586,8 +645,8 @@ func runLoopCase(ci interface{}, rec *pbt.Rec) *pbt.Failure {
 		return pbt.Failf("observed-set-differs-from-contract", "the hub has observed no signer set although the contract emitted its initial one")
 	}
 	// every batch the contract executed is gone from the hub, none newer than the contract's last nonce was removed by execution
-	last := w.ch.LastBatchNonce(w.token)
 	for _, b := range h.Batches("ethereum") {
+		last := w.ch.LastBatchNonce(common.HexToAddress(b.ExternalTokenId))
 		if b.BatchNonce <= last {
 			return pbt.Failf("executed-batch-still-pending", "contract executed batches up to nonce %d but the hub still offers batch %d", last, b.BatchNonce)
 		}
@@ -596,6 +655,7 @@ func runLoopCase(ci interface{}, rec *pbt.Rec) *pbt.Failure {
 	rec.Label("valsets-accepted=" + bucket(accepted))
 	rec.Label("batches-executed=" + bucket(executed))
 	rec.Label("submissions-refused=" + bucket(refused))
+	_ = learn
 	if batchesUnderNewSet > 0 {
 		rec.Label("batch-under-rotated-set")
 	}
